@@ -4,14 +4,15 @@
 # is made with tools/mut_check_inplace.sh, which applies it to /repo itself and undoes it.
 # usage: mut_check.sh <prop> <patch.diff> [tier] [tag]
 prop=$1; patch=$2; tier=${3:-quick}; tag=${4:-$(basename $(dirname $patch))}
-wt=/tmp/mutrepo/$prop
+V=$(cd "$(dirname "$0")/.." && pwd)   # the /verif this script belongs to (a snapshot under vp run, or /verif itself)
+wt=/tmp/mutrepo/${prop}_$$
 mkdir -p /tmp/mutrepo
 if [ ! -d $wt ]; then git -C /repo worktree add -q --detach $wt HEAD || exit 2; fi
 git -C $wt checkout -q --detach $(git -C /repo rev-parse HEAD) && git -C $wt checkout -q -- . && git -C $wt clean -fdq go
 git -C $wt apply $patch || { echo "check $prop on $tag: PATCH DOES NOT APPLY"; exit 2; }
-out=/tmp/mutrepo/out_$prop
+out=/tmp/mutrepo/out_${prop}_$$
 mkdir -p $out/evidence
-log=/verif/out/mut_${prop}_$tag.log
-cd /verif; VERIF_SEED=1 VERIF_REPO=$wt VERIF_OUT=$out VERIF_EVIDENCE=$out/evidence ./check $prop --tier $tier > $log 2>&1; rc=$?
-git -C $wt checkout -q -- .
+mkdir -p $V/out; log=$V/out/mut_${prop}_$tag.log
+cd $V; VERIF_SEED=1 VERIF_REPO=$wt VERIF_OUT=$out VERIF_EVIDENCE=$out/evidence ./check $prop --tier $tier > $log 2>&1; rc=$?
+git -C /repo worktree remove --force $wt; rm -rf $out
 echo "check $prop on $tag: exit=$rc $(tail -1 $log)"; grep -E "^(VIOLATION|INCONCLUSIVE|ENCODER)" $log | cut -c1-200 | head -6
